@@ -12,7 +12,8 @@ if [ -n "$VERIF_REPO" ] && [ "$VERIF_REPO" != /repo ]; then
   export GOFLAGS="-mod=mod -modfile=$VERIF_ROOT/.scratch/go.$$.mod"
   trap 'rm -f "$VERIF_ROOT/.scratch/go.$$.mod" "$VERIF_ROOT/.scratch/go.$$.sum"' EXIT
 fi
-mkdir -p bin evidence/parts replays
+OUT="${VERIF_OUT:-$VERIF_ROOT}"
+mkdir -p bin "$OUT/evidence/parts" "$OUT/replays"
 # parts of each property: engine[:part]
 parts_of() {
   case "$1" in
@@ -51,8 +52,8 @@ run_part() { # $1 = engine, $2 = part name ("" if single)
       local n=150; [ "$tier" = thorough ] && n=1500
       VERIF_TIER_NAME="$tier" "$bin" $n > "$bin.out" 2>&1; local rrc=$?
       if grep -q "WARNING: DATA RACE" "$bin.out"; then
-        cp "$bin.out" "replays/$id-data-race.txt"; rm -f "$bin" "$bin.out"
-        echo "VIOLATION property=$id replay=$VERIF_ROOT/replays/$id-data-race.txt"
+        cp "$bin.out" "$OUT/replays/$id-data-race.txt"; rm -f "$bin" "$bin.out"
+        echo "VIOLATION property=$id replay=$OUT/replays/$id-data-race.txt"
         return 1
       fi
       tail -1 "$bin.out" >&2; rm -f "$bin.out"
@@ -72,7 +73,7 @@ if [ "$tier" = replay ]; then
 fi
 n=$(echo $parts | wc -w)
 worst=0
-rm -f evidence/parts/$id.*.json
+rm -f "$OUT"/evidence/parts/$id.*.json
 for p in $parts; do
   eng="${p%%:*}"; part="${p#*:}"; [ "$part" = "$p" ] && part=""
   if [ "$n" -gt 1 ]; then export VERIF_PART="$part"; else unset VERIF_PART; fi
@@ -82,7 +83,7 @@ done
 unset VERIF_PART
 if [ "$n" -gt 1 ]; then
   build ./cmd/evmerge "bin/evmerge-$$"
-  "bin/evmerge-$$" "$VERIF_ROOT" "$id" || worst=2
+  "bin/evmerge-$$" "$OUT" "$id" || worst=2
   rm -f "bin/evmerge-$$"
 fi
 exit $worst
